@@ -103,6 +103,15 @@ func (w *World) monitorRequests() {
 					w.Violate("C14", "undocumented-error#"+kind, "%s op %d (%s) returned %s: %v", a.spec.Name, r.Idx, op.Kind, cl, r.Err)
 				}
 			}
+			if r.Err != nil && mqtt.IsDeny(r.Err) && mqtt.IsEnd(r.Err) {
+				w.Violate("C14", "deny-and-end", "%s op %d (%s) returned %v, which is IsDeny and IsEnd at once", a.spec.Name, r.Idx, op.Kind, r.Err)
+			}
+			if kind != "close" && kind != "online" && kind != "offline" && w.client != nil {
+				perm := r.Err == nil || mqtt.IsDeny(r.Err) || mqtt.IsEnd(r.Err) || has("SubscribeError")
+				if (w.client.Backoff(r.Err) == nil) != perm {
+					w.Violate("C14", "backoff-class", "Backoff(%v) nil=%t, want nil=%t", r.Err, !perm, perm)
+				}
+			}
 			if kind == "close" {
 				continue
 			}
@@ -430,6 +439,39 @@ func (w *World) monitorShutdown() {
 	}
 	if !closerReturned {
 		return
+	}
+	// a successful Disconnect made DISCONNECT the last packet of its connection
+	{
+		tl, tails := w.wireTimeline()
+		for _, a := range w.actors {
+			for ri := range a.results {
+				r := &a.results[ri]
+				if r.Op.Kind != "disc" || r.Err != nil {
+					continue
+				}
+				from, to := w.callSpan(a.spec.Name, r.Idx, a.gen)
+				var last *wp
+				var mine *wp
+				for i := range tl {
+					x := &tl[i]
+					if x.start >= from && x.start <= to && w.log[x.start].T == a.th.name && x.p.Type == tDISCONNECT {
+						mine = x
+					}
+				}
+				if mine == nil {
+					w.Violate("C12", "disconnect-not-written", "%s: Disconnect returned nil without a DISCONNECT packet on the wire", a.spec.Name)
+					continue
+				}
+				for i := range tl {
+					if tl[i].conn == mine.conn {
+						last = &tl[i]
+					}
+				}
+				if last.p.Type != tDISCONNECT || len(tails[mine.conn.id]) > 0 {
+					w.Violate("C12", "disconnect-not-last", "%s: Disconnect returned nil, yet c%d carries %s after the DISCONNECT", a.spec.Name, mine.conn.id, last.p)
+				}
+			}
+		}
 	}
 	d := mqtt.VerifDump(w.client)
 	if !strings.Contains(d, "on=blocked off=released") {
